@@ -10,6 +10,7 @@
   name            p1   p2   p3        program                                   std:: call on `x = vector<long>{v…}`
   reverse         -    -    -         revProg n 0 n                             reverse(x.begin(), x.end()); pos 0
   fill            i    cnt  val       fillProg val cnt i                        fill(x+i, x+i+cnt, val); pos i+cnt
+  sort            -    -    -         insertionSortProg (<) n   (n ≤ 16)        sort(x.begin(), x.end()); pos 0
   partition       -    -    -         partitionProg even n                      partition(all, even) - x
   unique          -    -    -         uniqueProg (==) n                         unique(all) - x
   remove          val  -    -         removeProg (== val) n                     remove(all, val) - x
@@ -32,6 +33,7 @@ def trProg (name : String) (p1 p2 p3 : Int) (n : Nat) : Option (Prog Int) :=
   match name with
   | "reverse" => some (revProg Int n 0 n)
   | "fill" => some (fillProg p3 p2.toNat p1)
+  | "sort" => some (insertionSortProg (fun a b => decide (a < b)) n)
   | "partition" => some (partitionProg (fun x => x % 2 == 0) n)
   | "unique" => some (uniqueProg (fun a b => a == b) n)
   | "remove" => some (removeProg (fun x => x == p1) n)
